@@ -32,7 +32,7 @@ PROPS = {
                         "no validity policy on the nodes of the generated trees (the theorem covers them through `Stk.valid`)"],
     },
     "C08": {
-        "lean": ["Stackage.Props.C08"],
+        "lean": ["Stackage.Props.C08", "Stackage.Props.C08b"],
         "streams": [{"name": "histx", "quick": 3000, "thorough": 60000}, {"name": "awk", "quick": 2000, "thorough": 40000}],
         "rule": "histories of the content mutators whose int arguments are drawn from {MinInt, MinInt+1, -Len-1..Len+1, MaxInt} on stacks of "
                 "length 0..4, all four index-option combinations, every kind; after each call Len/Index*/Front/Back/Cap/Avail are re-read; "
@@ -88,7 +88,7 @@ PROPS = {
     },
     "C17": {
         "lean": ["Stackage.Props.C17"],
-        "streams": [{"name": "inert", "quick": 4000, "thorough": 80000}],
+        "streams": [{"name": "inert", "quick": 4000, "thorough": 80000}, {"name": "closures", "quick": 1500, "thorough": 30000}],
         "rule": "every exported method of Stack and Condition (reflection) x generated arguments x receiver states {zero value, freed}; the result must be the zero result of the "
                 "Lean table and the receiver must stay uninitialised; sequences of 1-4 calls",
         "modelled": COMMON_MODELLED,
@@ -152,7 +152,7 @@ PROPS = {
                        "repeats the model's verdict. K-C05-1 / K-C05-2 (found by this check in the first round of repairs) are fixed; their inputs are regression cases.",
     },
     "C04": {
-        "lean": ["Stackage.Props.C04"],
+        "lean": ["Stackage.Props.C04", "Stackage.Props.C04b"],
         "streams": [{"name": "roundtrip", "quick": 3000, "thorough": 60000}],
         "rule": "random trees (depth <= 3 quick / 5 thorough) of AND/OR/NOT/LIST/BASIC stacks (empty ones, folded labels, capacities included), Conditions whose "
                 "expression is a primitive, a Stack or a Condition, primitive and nil leaves (also leaves equal to label words); Unmarshal, then Marshal into a zero Stack "
@@ -324,7 +324,7 @@ def _c03(out):
     all-or-nothing behaviour belong to C15): Cap constant, Avail == Cap-Len, IsFull == (Len==Cap), Len <= Cap."""
     steps = []
     for st in out.split(" ; "):
-        pr = _project_obs(st, {"ret", "L", "c", "a", "u"})
+        pr = _project_obs(st, {"ret", "L", "I", "c", "a", "u"})   # content too: "Insert on a full stack fails without changing it"
         if "src{" in st:
             m = re.search(r"\} L(-?\d+) c(-?\d+) a(-?\d+) u([01])", pr)
             if m:
@@ -393,6 +393,9 @@ def projection(pid, stream):
         return _c13_cond
     if pid == "C14" and stream == "closures":
         return lambda s: s
+    if pid == "C17" and stream == "closures":
+        # only the final Free step matters to C17: "Free makes the handle zero unless the instance is read-only"
+        return lambda s: " ; ".join(st for st in s.split(" ; ") if st.startswith("free "))
     return PROJ.get(pid, lambda s: s)
 
 
